@@ -1,6 +1,7 @@
 package rules
 
 import (
+	"fmt"
 	"go/types"
 	"sort"
 
@@ -11,9 +12,9 @@ import (
 
 // Root is a request-handling entry point discovered from the program itself.
 type Root struct {
-	Kind string // http sasl ldap
-	Name string
-	Fn   *ssa.Function
+	Kind  string // http sasl ldap
+	Name  string
+	Fn    *ssa.Function
 	Route string
 }
 
@@ -29,56 +30,61 @@ func frontendRoots(p *an.Prog) []Root {
 		seen[f] = true
 		out = append(out, Root{Kind: kind, Name: an.FnName(f), Fn: f, Route: route})
 	}
+	frontendUnresolved = nil
 	for _, fn := range pkgFns(p, mainPkg) {
-		for _, b := range fn.Blocks {
-			for _, in := range b.Instrs {
-				switch x := in.(type) {
-				case *ssa.Store:
-					fa, ok := x.Addr.(*ssa.FieldAddr)
-					if !ok {
-						continue
-					}
-					fv := an.FieldVar(fa.X.Type(), fa.Field)
-					if fv == nil || fv.Name() != "H" || fv.Pkg() == nil || fv.Pkg().Path() != mainPkg {
-						continue
-					}
-					v := x.Val
-					if ct, ok := v.(*ssa.ChangeType); ok {
-						v = ct.X
-					}
-					if f, ok := v.(*ssa.Function); ok {
-						add("http", f, "")
-					} else if mc, ok := v.(*ssa.MakeClosure); ok {
-						add("http", mc.Fn.(*ssa.Function), "")
-					}
-				case ssa.CallInstruction:
-					name := an.CalleeName(x)
-					switch name {
-					case saslPkg + ".NewServer", saslPkg + ".NewServerFromListener":
-						for _, a := range x.Common().Args {
-							if ct, ok := a.(*ssa.ChangeType); ok {
-								a = ct.X
-							}
-							if mc, ok := a.(*ssa.MakeClosure); ok {
-								add("sasl", mc.Fn.(*ssa.Function), "")
-							} else if f, ok := a.(*ssa.Function); ok {
-								add("sasl", f, "")
-							}
+		for _, in := range an.DeepInstrs(fn) {
+			switch x := in.(type) {
+			case *ssa.Store:
+				fa, ok := x.Addr.(*ssa.FieldAddr)
+				if !ok {
+					continue
+				}
+				fv := an.FieldVar(fa.X.Type(), fa.Field)
+				if fv == nil || fv.Name() != "H" || fv.Pkg() == nil || fv.Pkg().Path() != mainPkg {
+					continue
+				}
+				fs := funcValues(p, x.Val, 0)
+				if len(fs) == 0 {
+					frontendUnresolved = append(frontendUnresolved, "handler stored at "+p.InstrPos(in))
+				}
+				for _, f := range fs {
+					add("http", f, "")
+				}
+			case ssa.CallInstruction:
+				name := an.CalleeName(x)
+				switch name {
+				case saslPkg + ".NewServer", saslPkg + ".NewServerFromListener":
+					n := 0
+					for _, a := range x.Common().Args {
+						if _, isFn := a.Type().Underlying().(*types.Signature); !isFn {
+							continue
 						}
-					case "(*github.com/glauth/ldap.Server).BindFunc":
-						for _, a := range x.Common().Args {
-							if mi, ok := a.(*ssa.MakeInterface); ok {
-								ms := p.SSA.MethodSets.MethodSet(mi.X.Type())
-								for i := 0; i < ms.Len(); i++ {
-									if ms.At(i).Obj().Name() == "Bind" {
-										f := p.SSA.MethodValue(ms.At(i))
-										if f != nil {
-											add("ldap", f, "")
-										}
+						for _, f := range funcValues(p, a, 0) {
+							add("sasl", f, "")
+							n++
+						}
+					}
+					if n == 0 {
+						frontendUnresolved = append(frontendUnresolved, "callback handed to "+name+" at "+p.InstrPos(in))
+					}
+				case "(*github.com/glauth/ldap.Server).BindFunc":
+					n := 0
+					for _, a := range x.Common().Args {
+						if mi, ok := a.(*ssa.MakeInterface); ok {
+							ms := p.SSA.MethodSets.MethodSet(mi.X.Type())
+							for i := 0; i < ms.Len(); i++ {
+								if ms.At(i).Obj().Name() == "Bind" {
+									f := p.SSA.MethodValue(ms.At(i))
+									if f != nil {
+										add("ldap", f, "")
+										n++
 									}
 								}
 							}
 						}
+					}
+					if n == 0 {
+						frontendUnresolved = append(frontendUnresolved, "binder handed to BindFunc at "+p.InstrPos(in))
 					}
 				}
 			}
@@ -98,4 +104,67 @@ func isNamed(t types.Type, pkg, name string) bool {
 		return false
 	}
 	return n.Obj().Pkg().Path() == pkg && n.Obj().Name() == name
+}
+
+// frontendUnresolved lists registration sites whose function value could not be resolved (set by frontendRoots).
+var frontendUnresolved []string
+
+// frontendRootsProblem: a registration site that could not be resolved, or a kind of frontend without any root.
+func frontendRootsProblem(roots []Root) string {
+	if len(frontendUnresolved) > 0 {
+		return "cannot resolve the " + frontendUnresolved[0]
+	}
+	n := map[string]int{}
+	for _, r := range roots {
+		n[r.Kind]++
+	}
+	if n["http"] < 8 || n["sasl"] < 1 || n["ldap"] < 1 {
+		return fmt.Sprintf("found %d HTTP handlers, %d SASL callbacks, %d LDAP binders (the web API has 8 routes; one SASL callback and one LDAP binder at least)", n["http"], n["sasl"], n["ldap"])
+	}
+	return ""
+}
+
+// funcValues resolves a function-typed value to the functions it can be: functions, closures, conversions, phis and
+// the results of module functions that return one (factories).
+func funcValues(p *an.Prog, v ssa.Value, depth int) []*ssa.Function {
+	if depth > 4 {
+		return nil
+	}
+	switch x := v.(type) {
+	case *ssa.Function:
+		return []*ssa.Function{x}
+	case *ssa.MakeClosure:
+		return []*ssa.Function{x.Fn.(*ssa.Function)}
+	case *ssa.ChangeType:
+		return funcValues(p, x.X, depth)
+	case *ssa.MakeInterface:
+		return funcValues(p, x.X, depth)
+	case *ssa.Phi:
+		var out []*ssa.Function
+		for _, e := range x.Edges {
+			fs := funcValues(p, e, depth+1)
+			if len(fs) == 0 {
+				return nil
+			}
+			out = append(out, fs...)
+		}
+		return out
+	case *ssa.Call:
+		g := x.Common().StaticCallee()
+		if g == nil || !p.InRepo(g) || g.Signature.Results().Len() != 1 {
+			return nil
+		}
+		var out []*ssa.Function
+		for _, b := range g.Blocks {
+			if r, ok := b.Instrs[len(b.Instrs)-1].(*ssa.Return); ok {
+				fs := funcValues(p, r.Results[0], depth+1)
+				if len(fs) == 0 {
+					return nil
+				}
+				out = append(out, fs...)
+			}
+		}
+		return out
+	}
+	return nil
 }
